@@ -7,31 +7,31 @@ props = [json.loads(l) for l in open(os.path.join(HERE, 'properties.jsonl'))]
 
 CHECKS = {
  "C01": dict(cat="exploration", ref="5.1", technique="differential property-based testing against a definitional reference interpreter (proptest choice tapes, type-directed generator, shrinking + AST minimisation)",
-   text="generated programs over the whole grammar are evaluated by nederlang::eval and by an AST-walking reference interpreter written from the README; value graph (with sharing), output and error kind must agree; a share of the programs is printed under generated layouts (sugar, comments, optional separators), and a text that the parser reads as another tree is judged against the tree it was printed from instead of being discarded",
+   text="generated programs over the whole grammar are evaluated by nederlang::eval and by an AST-walking reference interpreter written from the README; value graph (with sharing), output and error kind must agree; a share of the programs is printed under generated layouts (sugar, comments, optional separators), and a text that the parser reads as another tree is judged against the tree it was printed from instead of being discarded; about 90 programs that are large in one dimension (thousands of names, constants, statements, long jumps, calls made far into the code) and the repository's own programs against the same oracle; the command-line program given a file must write what the library evaluates",
    note="trusted: harness/src/refint.rs (the specification) and the exclusion rules U1-U21 of DESIGN.md 4.3; exploration never proves absence"),
  "C02": dict(cat="exploration", ref="5.2", technique="validity predicate over compiler output (bytecode verifier: abstract interpretation of stack heights on all CFG paths) on generated, mutated and random inputs + probed execution",
    text="every generated / mutated / random input that compiles is checked by a static bytecode verifier on ALL paths (decode, code units, stack-height intervals, jump targets, unit disjointness, index ranges) and then run with probes at every unchecked VM access; the verifier itself is self-tested against 18 hand-assembled bad bytecodes on every run; generated sessions on one retained compiler and machine: every line's code verified the same way and run under the probes",
    note="trusted: the stack-effect table of DESIGN.md Appendix B and the verifier (self-tested); exploration over generated inputs, not a proof over all programs"),
  "C03": dict(cat="exploration", ref="5.3", technique="model-based stateful testing of the collector (operation histories vs reachability model, short histories enumerated exhaustively) + differential testing of allocating programs under a shadow heap",
-   text="allocating programs run under a shadow heap that checks every dereference and quarantines freed blocks, with collector pre/post-conditions evaluated at every cycle and the result compared with the reference interpreter; collector histories (all of length <=4/5 over 3 objects, random up to 40 ops over 8 objects) against a reachability model",
+   text="allocating programs run under a shadow heap that checks every dereference and quarantines freed blocks, with collector pre/post-conditions evaluated at every cycle and the result compared with the reference interpreter; collector histories (all of length <=4/5 over 3 objects, random up to 40 ops over 8 objects) against a reachability model; heap values pending at the bottom of the stack while recursions run up to and past the stack limit",
    note="trusted: shadow heap hook H5 as ground truth, the reachability model; handed-over objects are roots of later cycles (as in every execution of the VM)"),
  "C04": dict(cat="fault_enumeration", ref="5.4", technique="fault injection at every instruction boundary of generated runs + heap ledger audit under a shadow heap; stateful collector histories with a reachability model",
-   text="each generated allocating program is run to completion and then aborted after k instructions for every k (long runs: 2000 points); after each run the ledger must balance: result live, every other object freed exactly once, nothing unreachable kept by a cycle; generated sessions on one retained compiler and machine with the ledger audited over the whole life of the machine",
+   text="each generated allocating program is run to completion and then aborted after k instructions for every k (long runs: 2000 points); after each run the ledger must balance: result live, every other object freed exactly once, nothing unreachable kept by a cycle; generated sessions on one retained compiler and machine with the ledger audited over the whole life of the machine; programs with up to 140 000 objects alive at a collection",
    note="trusted: hook H2 injects the error on the same exit path as a run-time type error; shadow heap H5"),
  "C05": dict(cat="exploration", ref="5.5", technique="robustness fuzzing with a totality oracle: generated token sequences, token edits, exhaustive truncations, noise, directed boundary corpus; supervisor process turns dead or hanging workers into findings",
    text="any input must yield a value or one of five error kinds: random token sequences, edits and complete truncations of the repository's programs, noise, ~250 directed boundary programs and deep nesting on an 8 MB stack; panics, hook events, dead processes and non-terminating front ends are violations; inputs that are large in one dimension (about 150 scale inputs: 3·10^5 blanks / statements / elements, 7·10^4 names and constants, 2·10^5-node lists at collections, printed, returned) on an 8 MB stack; the whole driver also in an unoptimised build of the interpreter; the command-line program built from the tree, given generated inputs, session lines and non-UTF-8 bytes as a file and through the prompt, must end in an orderly way and end when its input ends",
    note="trusted: catch_unwind + supervisor/watchdog classification; the VM budget counts as a loop the program spells out"),
  "C06": dict(cat="exploration", ref="5.6", technique="exhaustive enumeration of a boundary lattice + property-based testing against an i128 / IEEE / code-point oracle",
-   text="all pairs of the 357-value integer boundary lattice x 11 operators x 3 syntactic forms (exhaustive), plus generated 61-bit, float and string pairs and the complete 7x7 type cross product, under the checked and the release-like build profile; the cross product in ten syntactic forms (globals, parameters, locals, literals on either side), and operands that are one and the same object (NaN, signed zeros, texts)",
+   text="all pairs of the 357-value integer boundary lattice x 11 operators x 3 syntactic forms (exhaustive), plus generated 61-bit, float and string pairs and the complete 7x7 type cross product, under the checked and the release-like build profile; the cross product in ten syntactic forms (globals, parameters, locals, literals on either side), and operands that are one and the same object (NaN, signed zeros, texts); the neutral literals 0 and 1 against every non-int operand",
    note="trusted: i128 arithmetic and host IEEE-754 as oracle; U6 (kind of error not fixed), U11 (ordering of null/bool masked)"),
  "C07": dict(cat="exploration", ref="5.7", technique="round-trip property (tree -> text -> tree) over exhaustively enumerated and proptest-generated trees and layouts",
    text="every expression tree with <=3 binary operators and every full depth-3 tree with one operator per level (exhaustive), plus generated statement-level trees, printed with minimal parentheses and under random layout; Debug(parse(text)) must equal the tree; wide trees (2 ... 5000 siblings in every kind of list)",
    note="trusted: the harness printer implementing the documented precedence table; U7 (prefix operators always parenthesised), U18 (parser restrictions respected)"),
  "C08": dict(cat="exploration", ref="5.8", technique="round-trip property (tokens -> text -> tokens, raw -> literal -> decoded) with exhaustive enumeration of short string contents",
-   text="generated token sequences over the whole vocabulary with every separator choice maximal munch allows must lex back to exactly themselves; all 22 621 string contents of <=4 raw units must decode as documented; illegal characters / unterminated strings must be rejected, not truncated",
+   text="generated token sequences over the whole vocabulary with every separator choice maximal munch allows must lex back to exactly themselves; all 22 621 string contents of <=4 raw units must decode as documented; illegal characters / unterminated strings must be rejected, not truncated; all control characters in the nothing-is-dropped grid; literals with every kind of line end inside, given to the command-line program as a file",
    note="trusted: the harness's separator-necessity predicate (derived from the token definitions) and decode function D"),
  "C09": dict(cat="exploration", ref="5.9", technique="differential testing against the reference interpreter + metamorphic relations (consistent renaming, unused shadowing declaration, poisoning with an undeclared name)",
-   text="programs of the scopes profile against the reference interpreter; renaming one declaration with exactly its uses and inserting an unused shadowing declaration must not change the observation; replacing any use by an undeclared name must give a ReferenceError before any output",
+   text="programs of the scopes profile against the reference interpreter; renaming one declaration with exactly its uses and inserting an unused shadowing declaration must not change the observation; replacing any use by an undeclared name must give a ReferenceError before any output; 300 ... 131 073 variables in one table: every name its own variable, or a refusal beyond the machine's limit",
    note="trusted: the reference resolver (static scoping rule of DESIGN.md 4.1); U4/U5 excluded by construction"),
  "C10": dict(cat="exploration", ref="5.10", technique="metamorphic testing (program vs transformed program, no reference interpreter)",
    text="closed programs compared with their variants under T1 (top level into a function), T2 (literal operand into a variable), T3 (mirrored operands), T4 (prepended literals) and random combinations; opcode multisets are measured to show that different implementation choices were actually exercised; T2 replaces any int / float / bool literal in expression position",
@@ -40,13 +40,13 @@ CHECKS = {
    text="all chains of nested constructs up to depth 4/5 with every admissible early exit and loop counts {0,1,2,17} against the reference interpreter; random control-flow programs; probe code after loops of 1..200 000 iterations must behave identically; every template also with all constructs in value position; exit-position independence of the value of a loop (implementation against itself)",
    note="trusted: reference interpreter; U8 (loop values masked)."),
  "C12": dict(cat="exploration", ref="5.12", technique="differential property-based testing with a tracing identity around arguments + directed boundary programs",
-   text="programs of the calls profile (recursion, functions as values, calls in every expression context, traced argument evaluation order) against the reference interpreter; directed recursion up to depth 70 000 must give the exact value or an error",
+   text="programs of the calls profile (recursion, functions as values, calls in every expression context, traced argument evaluation order) against the reference interpreter; directed recursion up to depth 70 000 must give the exact value or an error; calls made from up to 280 000 bytes into straight-line code",
    note="trusted: reference interpreter; U3, U15, U17"),
  "C13": dict(cat="exploration", ref="5.13", technique="model-based testing of operation sequences (reference model with shared mutable arrays) + exhaustive index grid + state snapshot at the failing operation",
    text="operation sequences over four variables (literals, aliases, reads, writes, lengte, mutating function, nesting) with the complete index x length grid; result graph incl. sharing must equal the model; after a failing operation the globals must equal the model state before it; literals that are evaluated once per call and text aliases through string()",
    note="trusted: reference interpreter as model; exit-snapshot hook H7; U21"),
  "C14": dict(cat="exploration", ref="5.14", technique="differential testing of every builtin over a value-shape grid + round-trip and idempotence properties + single-pass print oracle",
-   text="7 builtins x ~150 value shapes x 0-3 arguments against the reference; int(string(n)) over the lattice, float(string(x)) over generated finite floats, T(T(v)) = T(v); print with generated formats against a single-pass oracle; two calls in one program over values that look alike across types",
+   text="7 builtins x ~150 value shapes x 0-3 arguments against the reference; int(string(n)) over the lattice, float(string(x)) over generated finite floats, T(T(v)) = T(v); print with generated formats against a single-pass oracle; two calls in one program over values that look alike across types; results changed in place and the same call made again; 2 ... 513 arguments",
    note="trusted: reference interpreter's builtins; host float formatting/parsing; U12/U16/U20 only totality"),
  "C15": dict(cat="exploration", ref="5.15", technique="property-based testing: round-trip + equality oracle over proptest-generated and exhaustively enumerated values",
    text="round trip (value -> word -> value) and pairwise equality against a structural oracle over generated values; the int lattice, the descriptor boundary grid and the 200x200 equality matrix are enumerated completely; arrays that share sub-arrays read back element by element and as text",
